@@ -119,9 +119,10 @@ def signal_sites(src):
     import access_sites as A
     src = strip_comments(src)
     out = []
+    signal_sites.locks = []        # (function, owner of the condition variable, mutexes held at the call — in text order)
     for name, params, body in A.functions(src):
         vt = A.var_types(params, body)
-        stack = []; i = 0; last = 0
+        stack = []; i = 0; last = 0; held = []
         while i < len(body):
             ch = body[i]
             if ch == "{":
@@ -132,11 +133,21 @@ def signal_sites(src):
                 last = i + 1
             elif ch == ";":
                 st = body[last:i + 1]
+                for lm in re.finditer(r"pthread_mutex_(lock|unlock)\s*\(\s*&\s*([\w>-]+?)->m\s*\)", st):
+                    lty = A.type_of(lm.group(2), vt)
+                    if lty is None:
+                        raise ExtractError("%s: cannot type the owner of the mutex %r" % (name, lm.group(2)))
+                    ln = A.LOCKNAME.get(lty, str(lty))
+                    if lm.group(1) == "lock":
+                        held.append(ln)
+                    elif ln in held:
+                        held.remove(ln)
                 m = re.search(r"pthread_cond_signal\s*\(\s*&\s*([\w>-]+?)->c\s*\)", st)
                 if m:
                     ty = A.type_of(m.group(1), vt)
                     if ty is None:
                         raise ExtractError("%s: cannot type the owner of the condition variable %r" % (name, m.group(1)))
+                    signal_sites.locks.append((name, A.LOCKNAME.get(ty, str(ty)), list(held)))
                     pre = st[:m.start()].strip()
                     guards = [re.sub(r"\s+", " ", h) for h in stack if re.match(r"(if|else|while|for)\b", h)]
                     if re.match(r"(if|else|while)\b", pre):
@@ -165,6 +176,9 @@ def lean_text(wsites, ssites, crc, ctor, signals=()):
     L.append("def crcDetectionIsConstructor : Bool := %s" % ("true" if ctor else "false"))
     L.append("/-- every pthread_cond_signal of threadpool.c: (function, whose condition variable, enclosing if/else/while headers) -/")
     L.append("def signalSites : List (String × String × String) := [" + ", ".join('("%s", "%s", "%s")' % x for x in signals) + "]")
+    L.append("/-- the mutexes held (lock/unlock calls of the function in text order) at each of those pthread_cond_signal calls -/")
+    L.append("def signalLocks : List (String × String × List String) := [" +
+             ", ".join('("%s", "%s", [%s])' % (f, o, ", ".join('"%s"' % h for h in hs)) for f, o, hs in getattr(signal_sites, "locks", [])) + "]")
     L += ["", "end Mtbl.Generated", ""]
     return "\n".join(L)
 
